@@ -420,6 +420,10 @@ def gen_model(r, *, budget=6000, max_T=4, force=None):
             if v in always:
                 lmin += Fr(always[v]) - gmin(v)
         slack = lmin - (gmin(rhs_v) if rhs_v else 0) + r.choice([0, Fr(1, 2), 1, 2])
+        if rhs_v and G[rhs_v]["k"] == "log":
+            # never binding exactly at a node of a log grid: the library's node is within an ulp of the mathematical one, and
+            # an ulp would decide the constraint (the minimal choice stays feasible with a margin)
+            slack += Fr(1, 4)
         args = lhs_vars + ([rhs_v] if rhs_v else [])
         rhs = ["add", V(rhs_v), N(slack)] if rhs_v else N(slack)
         if "pconstraint" in force and i == 0:
